@@ -205,3 +205,16 @@ package sqlgen
 //@   call append#2 assert arg1[0] == value && value == filter[rangekey] && len(columns) == len(values) + 1
 //@   loop 1 invariant len(columns) == len(values) && (forall n string :: visited[n] ==> 0 <= idx[n] && idx[n] < len(columns) && columns[idx[n]] == t.ColumnsByName[n] && values[idx[n]] == filter[n])
 //@   ensures err == nil ==> result != nil
+
+// ---- C12 (restrictions accumulate): deriving a handle adds a limit and keeps everything the receiver had - its connection,
+// schema, batch function and, above all, the limit it already carries; the receiver itself is left as it was.
+//@ func DB.WithDynamicLimit
+//@   requires db != nil
+//@   ensures err == nil ==> result.dynamicLimit.GetLimitFilter == dynamicLimit.GetLimitFilter && result.dynamicLimit.ShouldContinueOnError == dynamicLimit.ShouldContinueOnError
+//@   ensures err == nil ==> result != nil && fresh(result) && result.shardLimit == old(db.shardLimit) && result.Conn == old(db.Conn) && result.Schema == old(db.Schema) && result.batchFetch == old(db.batchFetch) && result.panicOnNoIndex == old(db.panicOnNoIndex)
+//@   ensures db.shardLimit == old(db.shardLimit)
+//@ func DB.WithShardLimit
+//@   requires db != nil
+//@   ensures err == nil ==> result != nil && fresh(result) && result.shardLimit == shardLimit && result.Conn == old(db.Conn) && result.Schema == old(db.Schema) && result.batchFetch == old(db.batchFetch) && result.panicOnNoIndex == old(db.panicOnNoIndex)
+//@   ensures err == nil ==> result.dynamicLimit.GetLimitFilter == old(db.dynamicLimit.GetLimitFilter) && result.dynamicLimit.ShouldContinueOnError == old(db.dynamicLimit.ShouldContinueOnError)
+//@   ensures db.shardLimit == old(db.shardLimit)
